@@ -267,6 +267,12 @@ impl<'a> Run<'a> {
         let r = guard(|| f(&mut sess));
         match r {
             Caught::Ok(v) => {
+                if self.dev.with(|d| d.budget_hit) {
+                    sess.poisoned = true;
+                    drop(sess);
+                    self.trace.aborted = Some(format!("{}: budget", what));
+                    return Err(self.viol(Aspect::Budget, format!("{} exceeded the device-call budget (non-termination)", what)));
+                }
                 self.sess = Some(sess);
                 Ok(v)
             }
